@@ -10,6 +10,10 @@ export GOFLAGS=-mod=mod GOPROXY=off GOSUMDB=off GOTOOLCHAIN=local
 export CGO_ENABLED=${CGO_ENABLED:-1}
 here="$(cd "$(dirname "$0")" && pwd)"
 export VERIF_ROOT="$here"
+# a replay file may be given relative to the caller's directory
+if [ "${1:-}" = "replay" ] && [ -n "${2:-}" ]; then
+  case "$2" in /*) replay_file="$2" ;; *) replay_file="$PWD/$2" ;; esac
+fi
 cd "$here/harness" || exit 2
 mkdir -p bin
 
@@ -39,7 +43,7 @@ case "$cmd" in
     build bin/twcheck-race -race || exit 2
     exit 0 ;;
   replay)
-    file="${2:?replay file}"
+    file="${replay_file:?replay file}"
     id="$(python3 -c 'import json,sys; print(json.load(open(sys.argv[1]))["property"])' "$file")"
     bin=bin/twcheck
     if [ "$id" = "C15" ]; then build bin/twcheck-race -race || exit 2; bin=bin/twcheck-race; else build bin/twcheck || exit 2; fi
